@@ -5,7 +5,8 @@ translate_train_kernels.py <repo-root> <out.lean> [--lean-root <dir>]
 TRANSLATOR for the straight-line kernels of the TRAIN layer of altrios-core (resistance kinds, `Strap::update_res`,
 `FricBrake::set_cur_force_max_out`, `TrainState::{res_net, mass, mass_compound}`, `SpeedTrace::{dt, mean}`,
 `SetSpeedTrainSim::{solve_required_pwr, solve_step}`, `SpeedLimitTrainSim::{solve_required_pwr, solve_step,
-get_scaling_factor, walk_internal (loop condition)}`, `utils::almost_{eq,le}`).
+get_scaling_factor, walk_internal (loop condition, and the `ensure!` after the step in the loop body)}`,
+`utils::almost_{eq,le}`).
 
 Same idea as scan/translate_kernels.py (whose tokenizer, item scanner and recursive-descent parser are imported
 and extended here): read the CURRENT Rust text of the functions listed in FUNCS and write one Lean definition
@@ -127,6 +128,11 @@ TRACE_BINDERS = ["vPrev", "vCur", "tPrev", "tCur"]
 #   trace     : Rust text of "the current index" of the speed trace (adds the binders vPrev vCur tPrev tCur)
 #   part      : ("after-call", m)  only the statements after the unique top-level statement calling `.m(`
 #               ("while-cond",)    only the condition of the unique `while` of the function
+#               ("loop-ensure", m) the check made after every `self.m()?` in the body of the unique `while`: the body must be
+#                                  (skipped logging statements and) `let`s, then the one statement `self.m()?;`, then the one
+#                                  `ensure!(c, …)`; the definition is `!(c)` — TRUE iff the ensure! FAILS — under the `let`s.
+#                                  Every component of `comps` is listed TWICE: the first variable is its value BEFORE the
+#                                  call (what the `let`s read), the second its value AFTER it (what the ensure! reads)
 #   tags/bails: err tags of the n-th ensure! / bail! (ordinal = textual order); the strings of the hand model
 FUNCS = [
     dict(lean="almostEq", file=SRC + "utils/mod.rs", impl=None, fn="almost_eq", amb=["c"], params=["num", "num", "opt"], ret="bool"),
@@ -181,6 +187,9 @@ FUNCS = [
          amb=["c36525"], comps=[("simulation_days", "days", False)], params=["bool"], ret="num"),
     dict(lean="walkCond", file=TR + "speed_limit_train_sim.rs", impl="SpeedLimitTrainSim", fn="walk_internal",
          part=("while-cond",), amb=["ft1000", "offsetEnd"], comps=[("state", "st", False)], params=[], ret="bool"),
+    dict(lean="walkStuck", file=TR + "speed_limit_train_sim.rs", impl="SpeedLimitTrainSim", fn="walk_internal",
+         part=("loop-ensure", "step"), amb=["ft1000", "offsetEnd"], comps=[("state", "st0", False), ("state", "st", False)],
+         params=[], ret="bool"),
 ]
 for _f in FUNCS:
     _f.setdefault("amb", [])
@@ -226,7 +235,7 @@ CALLEES = [
 ]
 
 RESERVED = set(TK.RESERVED) | set(AMBIENT) | set(TRACE_BINDERS) | {
-    "cs", "st", "fb", "bp", "con", "res", "tpc", "days", "bail", "ctxOpt", "strapCalcRes", "state"} \
+    "cs", "st", "st0", "fb", "bp", "con", "res", "tpc", "days", "bail", "ctxOpt", "strapCalcRes", "state"} \
     | {f["lean"] for f in FUNCS if "lean" in f}
 RESERVED.discard("state")      # `state` is a legitimate parameter name (a `&mut TrainState`)
 
@@ -242,7 +251,8 @@ def note(s):
 
 class TParser(Parser):
     """the parser of translate_kernels.py plus: `&self`, reference parameters, tuple / typed `let`, `bail!`,
-    skipped logging statements, `match`, `as`, `while` (only to extract its condition), unread `.with_context(..)`"""
+    skipped logging statements, `match`, `as`, `while` (only to extract its condition, or the `ensure!` of its body),
+    unread `.with_context(..)`"""
 
     def signature(self):
         self.eat("fn")
@@ -329,9 +339,20 @@ class TParser(Parser):
             if not self.at("{"):
                 self.err("expected the body of `while`")
             close = match_close(self.T, self.i, self.rel)
-            self.i = close + 1                    # the body is not read (only the condition can be translated)
-            return ("stmt", N("while", x.line, cond=cond, body_line=lb.line))
+            body_lo = self.i
+            self.i = close + 1                    # the body is not read here (`loop_body` reads it for the part "loop-ensure")
+            return ("stmt", N("while", x.line, cond=cond, body_line=lb.line, body_lo=body_lo, body_hi=close))
         return None
+
+    def loop_body(self, w):
+        """the body of the `while` statement `w` of this function, as a block"""
+        saved = self.i
+        self.i = w.body_lo
+        b = self.block()
+        if self.i != w.body_hi + 1:
+            self.err("could not delimit the body of `while`")
+        self.i = saved
+        return b
 
     def method_args(self, name):
         if name == "with_context":
@@ -1427,6 +1448,45 @@ def translate(cfg, root, files, structs, uc, table):
         t = cx.logic(ws[0].cond, "bool")
         cx.emit(t)
         return fn, head, cx.lines
+    if part is not None and part[0] == "loop-ensure":
+        ws = [s for s in stmts if s.kind == "while"]
+        if len(ws) != 1:
+            raise TErr(where + "%s: %d top-level `while` statements, expected exactly 1" % (name, len(ws)))
+        lb = p.loop_body(ws[0])
+        if lb.tail is not None:
+            raise TErr("%s:%d: the body of the loop of %s ends in a value" % (rel, lb.tail.line, name))
+
+        def is_call(s):
+            e = s.e.e if (s.kind == "exprstmt" and s.e.kind == "try") else None
+            return (e is not None and e.kind == "method" and e.name == part[1] and not e.args and e.tf is None
+                    and e.recv.kind == "path" and e.recv.segs == ["self"])
+        calls = [i for i, s in enumerate(lb.stmts) if is_call(s)]
+        if len(calls) != 1 or sum(1 for s in lb.stmts if calls_method(s, part[1])) != 1:
+            raise TErr("%s:%d: the body of the loop of %s must contain the statement `self.%s()?;` exactly once and no "
+                       "other call of `.%s(`" % (rel, ws[0].body_line, name, part[1], part[1]))
+        before, after = lb.stmts[:calls[0]], lb.stmts[calls[0] + 1:]
+        if len(after) != 1 or after[0].kind != "ensure":
+            raise TErr("%s:%d: after `self.%s()?;` the body of the loop of %s must consist of exactly one ensure!, found %s"
+                       % (rel, lb.stmts[calls[0]].line, part[1], name, [s.kind for s in after] or "nothing"))
+        pre, post = {}, {}
+        for path, var, mut in cfg["comps"]:
+            if mut:
+                raise TErr(where + "translator table: the part `loop-ensure` reads its components only")
+            (post if path in pre else pre)[path] = (var, False, comp_view(cfg["impl"], path))
+        if set(pre) != set(post):
+            raise TErr(where + "translator table: the part `loop-ensure` lists every component twice (before / after the call)")
+        cx.monadic = False
+        cx.can_hoist = False
+        cx.comps = pre                        # the `let`s in front of the call read the objects as they are BEFORE it
+        for s in before:
+            if s.kind != "let":
+                raise TErr("%s:%d: only `let` statements may precede `self.%s()?;` in the body of the loop of %s (found `%s`)"
+                           % (rel, s.line, part[1], name, s.kind))
+            cx.stmt(s)
+        cx.comps = post                       # the ensure! reads them as they are AFTER it
+        t = cx.logic(after[0].cond, "bool", True)
+        cx.emit("!" + ("(" + t + ")" if t.startswith("!") else t))          # TRUE iff the ensure! fails
+        return fn, head, cx.lines
     if cfg["ret"] == "unit":
         for s in stmts:
             cx.stmt(s)
@@ -1507,6 +1567,10 @@ HEADER = '''import Altrios.Train
       checked against uc.rs and the driver's Float constants); `si::X::ZERO` is 0; `x_uom(&a, &b, e)` is `x(a, b, e)`
       (macro text checked); numeric literals: 0, 1, 365.25 (c36525) and the named `Tr.TrConsts` (%(consts)s).
     * statements `#[cfg(feature = "logging")] log::…!(…);` are skipped.
+    * `[while-cond]` is the condition of the function's only `while`; `[loop-ensure m]` is the check made in that loop after
+      every `self.m()?`: the loop body must be `let`s, the one statement `self.m()?;`, one `ensure!(c, …)`, nothing else;
+      the definition is `!(c)` (TRUE iff the ensure! fails) under the `let`s, where the `let`s read the state BEFORE the
+      call (`st0`) and `c` reads the state AFTER it (`st`).
     * SHARED CALLEES (hand-modelled functions used by both sides of every equality):
 %(callees)s
 %(assume)s-/
